@@ -71,7 +71,11 @@ RULE = ("metamorphic pairs of real runs, maxiters <= 5, <= 36 cells, ranks 1-2: 
         "low-rank-plus-noise (counts for cp_apr), with zero entries, and for cp_apr an optional all-zero slice; every mode-n "
         "unfolding has exact rank >= the requested rank (checked with Fractions in the generator), Tucker ranks satisfy "
         "r_n <= prod of the others, start columns are not nearly parallel (exact Gram-determinant test) - so the sub-problems are "
-        "well posed and rounding is not amplified. cp_apr PQNR cases where pyttb raises its own L-BFGS assertion identically under "
+        "well posed and rounding is not amplified; wave 3b: Tucker-ALS data additionally have a relative eigen-gap >= 1e-2 at the rank "
+        "cut of every mode-n Gram matrix and 'nvecs' starts are generated only for rank <= every mode size with separated leading "
+        "Gram eigenvalues (a repeated eigenvalue makes eigsh / ARPACK, whose start vector numpy's seed does not drive, return a "
+        "different subspace on every call: two IDENTICAL calls then disagree). Quick tier: every class once or twice (about 200 "
+        "pairs); thorough: 10 x the full count tables (about 2.8k pairs). cp_apr PQNR cases where pyttb raises its own L-BFGS assertion identically under "
         "both presentations are skipped; 'nvecs' starts are not generated on sparse data (open findings A-38 / C09-NVECS-SPARSE: "
         "sptensor.nvecs returns complex vectors). non-trivial = data not all-equal and, for relabel, a non-identity permutation; "
         "distinct = distinct (op, both run descriptions)")
